@@ -9,7 +9,7 @@ open SaphyrVerif.Anchors SaphyrVerif.Spec.Anchors
 mutual
 theorem relV_plainOf (H : Heap) (ρ : Ptr → Option Ptr) : ∀ (v : Val), plainV v = true → RelV H ρ v (plainOf v)
   | .leaf k, _ => by simp [RelV, plainOf]
-  | .node t m items, hp => by
+  | .node m items, hp => by
     simp only [plainV] at hp
     simp only [RelV, plainOf]
     exact ⟨_, rfl, relVList_plainOf H ρ items hp⟩
@@ -34,7 +34,7 @@ theorem ptrMap_of (kindOf : Ptr → Kind × Nat) (S : SerSt) (D : DeSt) (p : Ptr
   simp [ptrMap, h1, hk, h2]
 
 theorem fields_relV (H : Heap) (kindOf : Ptr → Kind × Nat) (S : SerSt) (D : DeSt) (inv : Inv H kindOf S D) :
-    ∀ (items : List Val) (vs : List RVal), (∀ it ∈ items, FlatItem H kindOf it) → FieldsRel S D items vs →
+    ∀ (items : List Val) (vs : List RVal), (∀ it ∈ items, FlatItem H kindOf it) → FieldsRel H S D items vs →
       RelVList H (ptrMap kindOf S D) items vs
   | [], [], _, _ => by simp [RelVList]
   | [], _ :: _, _, h => by simp [FieldsRel] at h
@@ -48,22 +48,23 @@ theorem fields_relV (H : Heap) (kindOf : Ptr → Kind × Nat) (S : SerSt) (D : D
     | leaf lk =>
       have : v = .leaf lk := h.1
       simp [RelV, this]
-    | node t m items =>
-      have hv : v = plainOf (.node t m items) := h.1
+    | node m items =>
+      have hv : v = plainOf (.node m items) := h.1
       rw [hv]
       exact relV_plainOf H _ _ (by simp only [plainV]; exact hit)
     | strong k tid p =>
       obtain ⟨id, q, h1, h2, h3⟩ := h.1
       exact ⟨q, ptrMap_of kindOf S D p k tid id q hit.1 h1 h2, h3⟩
     | weak k tid p =>
-      obtain ⟨id, q, h1, h2, h3⟩ := h.1
-      obtain ⟨_, payload, hl, _⟩ := inv.stored p id h1
-      simp only [RelV, hl]
-      exact ⟨q, ptrMap_of kindOf S D p k tid id q hit.1 h1 h2, h3⟩
+      rcases h.1 with ⟨hn, hv⟩ | ⟨hl, id, q, h1, h2, h3⟩
+      · simp only [RelV, hn, if_true]
+        exact hv
+      · simp only [RelV, hl, if_false]
+        exact ⟨q, ptrMap_of kindOf S D p k tid id q hit.1 h1 h2, h3⟩
 
 theorem same_sharing_of_inv (H : Heap) (kindOf : Ptr → Kind × Nat) (S : SerSt) (D : DeSt) (inv : Inv H kindOf S D)
     (m : Bool) (items : List Val) (vs : List RVal) (hflat : ∀ it ∈ items, FlatItem H kindOf it)
-    (hrel : FieldsRel S D items vs) : SameSharing H (.node true m items) D (.node m vs) := by
+    (hrel : FieldsRel H S D items vs) : SameSharing H (.node m items) D (.node m vs) := by
   refine ⟨ptrMap kindOf S D, ?_, ?_, ?_⟩
   · simp only [RelV]
     exact ⟨vs, rfl, fields_relV H kindOf S D inv items vs hflat hrel⟩
@@ -94,7 +95,7 @@ theorem flat_step_ok (H : Heap) (kindOf : Ptr → Kind × Nat) (fuel fuel' : Nat
     (hit : FlatItem H kindOf it) (S : SerSt) (D : DeSt) (inv : Inv H kindOf S D)
     (o : Out) (S' : SerSt) (hser : serVal fuel H S it = .ok (o, S'))
     (ty : Ty) (hty : tyOf fuel' H it = some ty)
-    (hw : ∀ k tid p, it = .weak k tid p → S.anchors.lookup p ≠ none) :
+    (hw : ∀ k tid p, it = .weak k tid p → H.lookup p = none ∨ S.anchors.lookup p ≠ none) :
     ∃ r, de ty o D = .ok r := by
   cases it with
   | leaf lk =>
@@ -103,8 +104,8 @@ theorem flat_step_ok (H : Heap) (kindOf : Ptr → Kind × Nat) (fuel fuel' : Nat
     have := tyOf_plain H fuel' _ ty hp hty
     subst e1 e2 this
     exact ⟨_, de_plain onAliasLive true _ 0 D hp⟩
-  | node t m items =>
-    have hp : plainV (.node t m items) = true := by
+  | node m items =>
+    have hp : plainV (.node m items) = true := by
       simp only [plainV]
       exact hit
     obtain ⟨e1, e2⟩ := ser_flat_plain fuel H _ hp S inv.pend o S' hser
@@ -115,7 +116,7 @@ theorem flat_step_ok (H : Heap) (kindOf : Ptr → Kind × Nat) (fuel fuel' : Nat
     obtain ⟨hk, payload, hl, hp, ht⟩ := hit
     have hty' := tyOf_strong fuel' H k tid p payload hl hp ty hty
     subst hty'
-    rcases ser_flat_strong fuel H k tid p payload hl hp ht S inv.held o S' hser with
+    rcases ser_flat_strong fuel H k tid p payload hl hp ht S inv.pend inv.held o S' hser with
       ⟨id, h1, rfl, rfl⟩ | ⟨h1, rfl, rfl⟩
     · obtain ⟨q, payload0, a1, a2, a3, a4, a5, a6⟩ := inv.stored p id h1
       rw [hl] at a1
@@ -135,23 +136,20 @@ theorem flat_step_ok (H : Heap) (kindOf : Ptr → Kind × Nat) (fuel fuel' : Nat
     have hty' := tyOf_weak fuel' H k tid p ty hty
     subst hty'
     have hseen := hw k tid p rfl
-    rcases ser_flat_weak fuel H k tid p hpl S inv.held o S' hser with
+    rcases ser_flat_weak fuel H k tid p hpl S inv.pend inv.held o S' hser with
       ⟨hn, rfl, rfl⟩ | ⟨id, h1, rfl, rfl⟩ | ⟨payload, hl, h1, rfl, rfl⟩
-    · cases hs : S'.anchors.lookup p with
-      | none => exact absurd hs hseen
-      | some id =>
-        obtain ⟨_, payload, hl, _⟩ := inv.stored p id hs
-        rw [hn] at hl
-        cases hl
+    · exact ⟨_, de_weak_dangling k tid D⟩
     · obtain ⟨q, payload0, a1, a2, a3, a4, a5, a6⟩ := inv.stored p id h1
       rw [hk] at a4
       have hid : id ≠ 0 := Nat.ne_of_gt (inv.tab p id h1).1
       exact ⟨_, de_weak_alias k tid id hid payload0 a2 D inv.opn a6 q a4⟩
-    · exact absurd h1 hseen
+    · rcases hseen with hn | hs
+      · rw [hn] at hl; cases hl
+      · exact absurd h1 hs
 
 theorem flat_list_ok (H : Heap) (kindOf : Ptr → Kind × Nat) (fuel fuel' : Nat) :
     ∀ (items : List Val), (∀ it ∈ items, FlatItem H kindOf it) →
-    ∀ (seen : List Ptr), weaksAfterStrong seen items = true →
+    ∀ (seen : List Ptr), weaksAfterStrong H seen items = true →
     ∀ (S : SerSt) (D : DeSt), Inv H kindOf S D → (∀ p ∈ seen, S.anchors.lookup p ≠ none) →
     ∀ (outs : List Out) (S' : SerSt), traverse (fun st x => serVal fuel H st x) S items = .ok (outs, S') →
     ∀ (tys : List Ty), items.mapM (fun x => tyOf fuel' H x) = some tys →
@@ -193,22 +191,25 @@ theorem flat_list_ok (H : Heap) (kindOf : Ptr → Kind × Nat) (fuel fuel' : Nat
             simp at hty
             subst hty
             have hx_flat := hflat x (List.mem_cons_self ..)
-            have hw : ∀ k tid p, x = .weak k tid p → S.anchors.lookup p ≠ none := by
+            have hw : ∀ k tid p, x = .weak k tid p → H.lookup p = none ∨ S.anchors.lookup p ≠ none := by
               intro k tid p e
               subst e
-              simp only [weaksAfterStrong, Bool.and_eq_true, List.contains_iff_mem] at hws
-              exact hseen p hws.1
+              simp only [weaksAfterStrong, Bool.and_eq_true, Bool.or_eq_true, Option.isNone_iff_eq_none,
+                List.contains_iff_mem] at hws
+              rcases hws.1 with hn | hm
+              · exact Or.inl hn
+              · exact Or.inr (hseen p hm)
             obtain ⟨⟨v1, e1, D1⟩, hd1⟩ := flat_step_ok H kindOf fuel fuel' x hx_flat S D inv o1 S1 hx t1 htx hw
             have st := flat_step H kindOf fuel fuel' x hx_flat S D inv o1 S1 hx t1 htx v1 e1 D1 hd1
             -- the `seen` list of the tail and what the table knows
-            have hnext : ∃ seen', weaksAfterStrong seen' xs = true ∧ ∀ p ∈ seen', S1.anchors.lookup p ≠ none := by
+            have hnext : ∃ seen', weaksAfterStrong H seen' xs = true ∧ ∀ p ∈ seen', S1.anchors.lookup p ≠ none := by
               cases x with
               | leaf lk =>
                 exact ⟨seen, by simpa [weaksAfterStrong] using hws, fun p hp h0 => by
                   cases hs : S.anchors.lookup p with
                   | none => exact hseen p hp hs
                   | some id => rw [st.2.1.1 p id hs] at h0; cases h0⟩
-              | node t m its =>
+              | node m its =>
                 exact ⟨seen, by simpa [weaksAfterStrong] using hws, fun p hp h0 => by
                   cases hs : S.anchors.lookup p with
                   | none => exact hseen p hp hs
@@ -237,14 +238,14 @@ theorem flat_list_ok (H : Heap) (kindOf : Ptr → Kind × Nat) (fuel fuel' : Nat
             exact ⟨(v1 :: vs2, e1 :: es2, D2), by simp only [deList, hd1', hd2]⟩
 
 theorem roundtrip_flat_ok (H : Heap) (kindOf : Ptr → Kind × Nat) (fuel : Nat) (m : Bool) (items : List Val)
-    (hflat : ∀ it ∈ items, FlatItem H kindOf it) (hws : weaksAfterStrong [] items = true)
-    (o : Out) (S' : SerSt) (hser : serialize fuel H (.node true m items) = .ok (o, S'))
-    (ty : Ty) (hty : tyOf fuel H (.node true m items) = some ty) :
-    ∃ rv s, roundtrip fuel H (.node true m items) = .ok rv s := by
+    (hflat : ∀ it ∈ items, FlatItem H kindOf it) (hws : weaksAfterStrong H [] items = true)
+    (o : Out) (S' : SerSt) (hser : serialize fuel H (.node m items) = .ok (o, S'))
+    (ty : Ty) (hty : tyOf fuel H (.node m items) = some ty) :
+    ∃ rv s, roundtrip fuel H (.node m items) = .ok rv s := by
   cases fuel with
   | zero => simp [serialize, serVal] at hser
   | succ fuel =>
-    simp only [serialize, serVal, if_true] at hser
+    simp only [serialize, serVal] at hser
     cases hl : traverse (fun st x => serVal fuel H st x) ({ ({} : SerSt) with pending := none }) items with
     | error e => rw [hl] at hser; simp at hser
     | ok r =>
@@ -256,7 +257,7 @@ theorem roundtrip_flat_ok (H : Heap) (kindOf : Ptr → Kind × Nat) (fuel : Nat)
       obtain ⟨⟨vs, es, D'⟩, hd⟩ := flat_list_ok H kindOf fuel fuel items hflat [] hws {} {} (inv_init H kindOf)
         (by intro p hp; cases hp) outs S1 hl tys hty1
       refine ⟨.node m vs, D', ?_⟩
-      simp only [roundtrip, serialize, serVal, if_true, hl, tyOf, hty1, Option.map_some, deserialize, de, deCore,
+      simp only [roundtrip, serialize, serVal, hl, tyOf, hty1, Option.map_some, deserialize, de, deCore,
         Option.getD_none, bne_self_eq_false, Bool.and_false, Bool.false_eq_true, if_false, hd]
 
 end SaphyrVerif.Lemmas.C14
